@@ -34,6 +34,7 @@ const (
 	Count     Kind = "count"
 	Wait      Kind = "wait"
 	CancelSub Kind = "cancelsubctx"    // the context a SubscribeWithReplay registration was made with ends (Class: which one, counted over such registrations)
+	Shutdown  Kind = "shutdown"        // bus.Shutdown at top level (PreCancelled: with a context that has already ended); the bus stays usable
 	SetPH     Kind = "setpanichandler" // install the panic handler at this point (possibly from inside a handler)
 )
 
@@ -218,7 +219,7 @@ type Engine struct {
 		ShardShare                                                                             bool
 		MaxDepth                                                                               int
 		Zombies                                                                                int
-		SkippedUnsub, ZombieUnsubs, SubCtxCancels                                              int
+		SkippedUnsub, ZombieUnsubs, SubCtxCancels, Shutdowns                                   int
 	}
 }
 
@@ -589,6 +590,17 @@ func (e *Engine) exec(op *Op, hctx context.Context) {
 	case Wait:
 		if e.depth == 0 {
 			e.Bus.Wait()
+		}
+	case Shutdown:
+		if e.depth == 0 {
+			ctx := context.Background()
+			if op.PreCancelled {
+				c, cancel := context.WithCancel(ctx)
+				cancel()
+				ctx = c
+			}
+			e.Bus.Shutdown(ctx) // either outcome is fine; what follows must behave as before
+			e.Stats.Shutdowns++
 		}
 	case CancelSub:
 		// nobody unsubscribed anything: the registry, and what every handler receives, stay as they are
